@@ -1370,6 +1370,11 @@ class SVG:
         self.remove_empty_subpaths(inplace=True)
         self.remove_unpainted_shapes(inplace=True)
 
+        # pruning may leave groups with fewer than two children: flatten them
+        for context in reversed(list(self.depth_first())):
+            if _is_group(context.element):
+                _try_remove_group(context.element)
+
         violations = self.checkpicosvg(
             allow_text=allow_text, drop_unsupported=drop_unsupported
         )
